@@ -457,7 +457,7 @@ func whoInterpretsAnElision(r *an.Run, rule string) {
 		}
 	}
 	r.Count("places that recognise an elision node", n)
-	r.Min("places that recognise an elision node", 8)
+	r.Min("places that recognise an elision node", 3)
 }
 
 // noRecursionInTheFrontEnd (C08-R15): recursion in gopatch is structural
